@@ -318,6 +318,10 @@ impl IntoIterator for Entries {
             deferred: vec![],
             iters: vec![],
         };
+        #[cfg(rivia_verif)]
+        if let Some(max) = crate::verif::max_descriptors() {
+            iter.opts.max_descriptors = max;
+        }
 
         // Create any configured filters
         if iter.opts.files {
